@@ -119,6 +119,9 @@ def _gen_prog(rng, m, generic, stress):
       lp.update(dtype=dt, int=dt in ('i8', 'u8', 'bool'), init=rng.choice([0, 1]), inv=0, final=rng.choice([0, 0, 2]),
                 step=4 if dt == 'bool' and rng.random() < 0.7 else rng.choice([2, 3, 3]) if dt != 'bool' else 2,
                 d=0 if dt == 'bool' else 0.5 if dt in ('f16', 'bf16') else 1, shape=rng.choice(SHAPES))
+    elif rng.random() < 0.12 and not generic:   # a float32 leaf carried unchanged, holding extreme magnitudes
+      lp.update(dtype='f32', int=False, init=rng.choice([0, 1]), step=2, inv=0, final=rng.choice([0, 0, 2]), extreme=True,
+                shape=rng.choice(SHAPES))
     lp.setdefault('dtype', 'i32' if lp['int'] else 'f32')
     leaves.append(lp)
   if stress and not any((not lp['int']) and lp['step'] == 0 and lp['inv'] for lp in leaves):
@@ -131,7 +134,19 @@ def _gen_prog(rng, m, generic, stress):
   return {'leaves': leaves, 'res': res}
 
 
-def _gen_leafvals(rng, lp, generic, large=False):
+def _f32(v):
+  import numpy as np
+  return float(np.float32(v))
+
+
+# (subnormals are NOT in the list: the pmap executable flushes them to zero even on a pure pass-through while jit /
+#  debug keep them -- observed on /repo with JAX 0.11.2 CPU; an absolute error < 1.2e-38 is inside the property's
+#  "up to floating-point rounding", and the exact comparison used here could not express it)
+EXTREME = [0.0, _f32(1.2e-38), _f32(1e-30), _f32(1e-7), _f32(5e-7), _f32(1e-6), 1.0, _f32(1e6), _f32(1e30), _f32(3.4028235e38),
+           -_f32(3.4028235e38), -_f32(1.2e-38), 'inf', '-inf', 'nan']
+
+
+def _gen_leafvals(rng, lp, generic, large=False, nonfinite=False):
   n = _size(lp['shape'])
   dt = lp.get('dtype', 'i32' if lp['int'] else 'f32')
   if dt == 'bool':
@@ -140,10 +155,14 @@ def _gen_leafvals(rng, lp, generic, large=False):
     return [rng.randrange(0, 20) for _ in range(n)]
   if dt in ('f16', 'bf16'):
     return [rng.choice([-2, -1.5, -1, -0.5, 0, 0.5, 1, 1.5, 2, 3]) for _ in range(n)]
+  if lp.get('extreme'):      # 0, subnormal, 1e-30 .. float32 max (as exact float32 values), and non-finite values
+    return [rng.choice(EXTREME) for _ in range(n)]
   if lp['int']:
     if large:      # beyond 2^24: a detour through float32 would be visible
       return [rng.choice([16777217, -16777217, 16777219, 33554433 // 2]) for _ in range(n)]
     return [rng.randrange(-4, 6) for _ in range(n)]
+  if nonfinite and rng.random() < 0.5:       # a non-finite value on a REAL position of a real client
+    return [rng.choice(['inf', '-inf', 'nan']) if rng.random() < 0.5 else float(_dy(rng, generic)) for _ in range(n)]
   return [float(_dy(rng, generic)) for _ in range(n)]
 
 
@@ -185,7 +204,7 @@ PROFILES = ['zeros', 'equal', 'ascending', 'onelong', 'random', 'random']
 FORMS = ['list', 'list', 'tuple', 'gen', 'iter', 'map']
 
 
-def _gen_run(rng, k, D, n, profile, generic=False, stress=True, zero_batch=False, dup=False):
+def _gen_run(rng, k, D, n, profile, generic=False, stress=True, zero_batch=False, dup=False, nonfinite=False, x64=False):
   m = rng.choice([1, 2, 3])
   ny = rng.choice([1, 2])
   prog = _gen_prog(rng, m, generic, stress)
@@ -198,6 +217,10 @@ def _gen_run(rng, k, D, n, profile, generic=False, stress=True, zero_batch=False
   ids = rng.sample(range(100), n)          # distinct, NOT in positional order
   if n and 0 not in ids and rng.random() < 0.5:
     ids[rng.randrange(n)] = 0              # the falsy id: 0 / b'' / '' / () depending on idkind
+  if n and rng.random() < 0.4:             # legal ids equal to internal sentinels: None, -1, False, (None,)
+    for code in rng.sample([900, 901, 903] + ([902] if 0 not in ids else []), rng.randrange(1, 3)):
+      ids[rng.randrange(n)] = code
+    ids = [i if ids.index(i) == j else 1000 + j for j, i in enumerate(ids)]
   if dup and n >= 2:                       # duplicate client ids: one result per input ENTRY is expected
     for _ in range(rng.randrange(1, 3)):
       i, j = rng.sample(range(n), 2)
@@ -206,7 +229,7 @@ def _gen_run(rng, k, D, n, profile, generic=False, stress=True, zero_batch=False
   clients = []
   for cid, nb in zip(ids, counts):
     batches = [_gen_batch(rng, m, ny, generic, zero_batch and rng.random() < 0.3) for _ in range(nb)]
-    clients.append([cid, batches, [_gen_leafvals(rng, lp, generic, large) for lp in leaves]])
+    clients.append([cid, batches, [_gen_leafvals(rng, lp, generic, large, nonfinite) for lp in leaves]])
   case = {'kind': 'run', 'k': k, 'D': D, 'wsr': rng.random() < 0.7, 'jaxin': rng.random() < 0.6,
           'batches_form': rng.choice(FORMS), 'clients_form': rng.choice(FORMS + ['list', 'dictitems']),
           'idkind': rng.choice(['int', 'int', 'bytes', 'str', 'tuple']),
@@ -215,9 +238,16 @@ def _gen_run(rng, k, D, n, profile, generic=False, stress=True, zero_batch=False
           'second': rng.choice(['repeat', 'interleave', 'pieces', 'abandon', 'disable_jit']),
           'order': rng.sample(['jit', 'debug', 'pmap'], 3),
           'tol': 1 if generic else 0, 'prog': prog,
-          'shared': [_gen_leafvals(rng, lp, generic, large) for lp in leaves], 'clients': clients}
+          'shared': [_gen_leafvals(rng, lp, generic, large, nonfinite and rng.random() < 0.3) for lp in leaves],
+          'clients': clients, 'state_nest': rng.choice(['tuple', 'tuple', 'dict', 'nested']),
+          'batch_keys': rng.choice(['xy', 'yx', 'mixed'])}
+  if x64:
+    case['x64'] = True                     # worker started with JAX_ENABLE_X64=1
+    if case['scalar_form'] == 'py':
+      case['scalar_form'] = 'np'
   if all(lp['final'] == 0 for lp in leaves) and rng.random() < 0.7:
     case['default_final'] = True           # client_final omitted: the documented default `lambda _, s: s`
+    case['state_nest'] = 'tuple'           # (the output then IS the state: keep the leaf order of the DSL)
   if all(lp['init'] == 0 for lp in leaves) and rng.random() < 0.8:
     case['cin_form'] = rng.choice(['empty', 'none'])      # the program never reads the client input
   if all(lp['init'] == 1 and lp['final'] == 0 for lp in leaves) and rng.random() < 0.8:
@@ -311,6 +341,8 @@ def _force(rng, case, what):
   else:
     case['shared_form'] = 'none'
   case['default_final'] = rng.random() < 0.7
+  if case['default_final']:
+    case['state_nest'] = 'tuple'
   return case
 
 
@@ -340,12 +372,16 @@ def _gen_cases(tier, rng):
       cases.append(_gen_run(rng, k, D, max(2, rng.randrange(1, 2 * D + 2)), 'random', zero_batch=True))
       cases.append(_gen_run(rng, k, D, rng.randrange(1, 2 * D + 2), 'random', stress=False))
       cases.append(_gen_run(rng, k, D, rng.randrange(2, 2 * D + 3), 'random', dup=True))
+      cases.append(_gen_run(rng, k, D, rng.randrange(1, 2 * D + 2), 'random', nonfinite=True))
+      if k == 3 or (tier == 'thorough' and k in (2, 8)):
+        cases.append(_gen_run(rng, k, D, rng.randrange(1, 2 * D + 2), 'random', x64=True))
+        cases.append(_gen_run(rng, k, D, rng.randrange(1, 2 * D + 2), 'ascending', x64=True))
       cases.append(_force(rng, _gen_run(rng, k, D, rng.randrange(1, 2 * D + 2), 'random'), 'init0'))
       cases.append(_force(rng, _gen_run(rng, k, D, rng.randrange(1, 2 * D + 2), 'random'), 'init1'))
   ks = sorted({k for k, _ in plan})[:4]
   for i in range(nthreads):
     cases.append(_gen_threads(rng, ks[i % len(ks)]))
-  cases.sort(key=lambda c: c['k'])       # workers are started in this order, four at a time
+  cases.sort(key=lambda c: (c['k'], bool(c.get('x64'))))       # workers are started in this order, four at a time
   return cases
 
 
@@ -364,12 +400,17 @@ def generate(tier, rng):
 # --------------------------------------------------------------------------
 # worker processes
 
+def _wkey(case):
+  return (case['k'], bool(case.get('x64')))
+
+
 class Worker:
-  def __init__(self, k):
-    self.k = k
+  def __init__(self, key):
+    k, x64 = key
+    self.k, self.x64 = k, x64
     env = dict(os.environ)
     env['PYTHONPATH'] = os.environ.get('PYTHONPATH', fw.REPO + ':' + os.path.dirname(HERE))
-    self.p = subprocess.Popen([sys.executable, '-m', 'harness.c02_worker', str(k)], stdin=subprocess.PIPE,
+    self.p = subprocess.Popen([sys.executable, '-m', 'harness.c02_worker', str(k)] + (['x64'] if x64 else []), stdin=subprocess.PIPE,
                               stdout=subprocess.PIPE, stderr=subprocess.DEVNULL, text=True, env=env, bufsize=1)
     self.lock = threading.Lock()
     self.ready = False
@@ -397,7 +438,7 @@ class Worker:
     with self.lock:
       if not self.ready:
         r = self._read(180)
-        if not isinstance(r, dict) or not r.get('ready') or r.get('devices') != self.k:
+        if not isinstance(r, dict) or not r.get('ready') or r.get('devices') != self.k or bool(r.get('x64')) != self.x64:
           self.kill()
           return {'worker_error': f'worker for {self.k} devices did not start: {r!r}'}
         self.ready = True
@@ -469,7 +510,7 @@ def _start_plan():
     kk = _key(c)
     if kk not in _RESULTS:
       _RESULTS[kk] = (threading.Event(), [])
-      by_k.setdefault(c['k'], []).append(c)
+      by_k.setdefault(_wkey(c), []).append(c)
   _POOL = concurrent.futures.ThreadPoolExecutor(4)
   for k in sorted(by_k):
     _POOL.submit(_job, k, by_k[k])
@@ -492,9 +533,9 @@ def run(case):
     ev.wait()
     obs = box[0]
   else:
-    w = _ONDEMAND.get(case['k'])
+    w = _ONDEMAND.get(_wkey(case))
     if w is None or not w.alive():
-      w = _ONDEMAND[case['k']] = Worker(case['k'])
+      w = _ONDEMAND[_wkey(case)] = Worker(_wkey(case))
     obs = w.ask(case)
   if obs.get('hang'):
     raise fw.Hang()
@@ -510,6 +551,7 @@ def _ref_client(np, prog, wsr, shared, batches, cin):
   leaves = prog['leaves']
 
   def arr(vals, lp):
+    vals = [float(v) if isinstance(v, str) else v for v in vals]
     return np.array(vals, dtype=np.int64 if lp['int'] else np.float64).reshape(lp['shape'])
   sh = [arr(shared[k], lp) for k, lp in enumerate(leaves)]
   ci = [arr(cin[k], lp) for k, lp in enumerate(leaves)]
@@ -856,20 +898,46 @@ def nontrivial(case, obs):
   return len(obs['reads']) > 0
 
 
+def _balanced(ops):
+  """The hypothesis `balanced` of C02_backend_restored_on_exit on one thread's flattened
+  operations: every enter has its exit, exits never outnumber enters."""
+  depth = 0
+  for k, _ in ops:
+    if k == 'enter':
+      depth += 1
+    elif k in ('exit', 'exitexc'):
+      depth -= 1
+      if depth < 0:
+        return False
+  return depth == 0
+
+
+def hypotheses_hold(case):
+  """Do the hypotheses of the theorems hold on this generated case?  (1 <= D; every thread's
+  operation sequence is balanced; ids need no hypothesis.)  Cases where they do not are still
+  run and judged by the oracle and the correspondence; they are only counted."""
+  if case['kind'] == 'run':
+    return case['D'] >= 1
+  return all(_balanced([p for t in _flatten(sc)[0] for p in t]) for sc in case['scripts'])
+
+
 def describe(case, obs):
   if case['kind'] == 'threads':
-    return {'kind': 'threads', 'threads': case['nthreads'], 'turns': min(len(case['order']) // 5 * 5, 40)}
+    return {'kind': 'threads', 'theorem_hypotheses_hold': hypotheses_hold(case), 'threads': case['nthreads'], 'turns': min(len(case['order']) // 5 * 5, 40)}
   n, D = len(case['clients']), case['D']
   counts = [len(c[1]) for c in case['clients']]
-  return {'kind': 'run', 'devices': D, 'clients_vs_D': 'none' if n == 0 else 'lt' if n < D else 'multiple' if n % D == 0 else 'ragged',
+  return {'kind': 'run', 'theorem_hypotheses_hold': hypotheses_hold(case), 'devices': D, 'clients_vs_D': 'none' if n == 0 else 'lt' if n < D else 'multiple' if n % D == 0 else 'ragged',
           'batch_profile': 'none' if not counts else 'all-zero' if max(counts) == 0 else 'equal' if len(set(counts)) == 1 else 'unequal-with-zero' if 0 in counts else 'unequal',
           'step_results': case['wsr'], 'jax_inputs': case['jaxin'], 'batches_form': case.get('batches_form', 'list'),
           'clients_form': case.get('clients_form', 'list'), 'idkind': case.get('idkind', 'int'),
-          'falsy_id': any(c[0] == 0 for c in case['clients']), 'scalar_form': case.get('scalar_form', 'array'),
+          'falsy_id': any(c[0] == 0 for c in case['clients']), 'sentinel_id': any(c[0] in (900, 901, 902, 903) for c in case['clients']), 'scalar_form': case.get('scalar_form', 'array'),
           'entry_point': case.get('via', 'ctx') + ('+kw' if case.get('kw') else '') + ('+default_final' if case.get('default_final') else ''),
           'second_call': case.get('second', 'repeat'),
           'empty_inputs': case.get('cin_form', 'tuple') + '/' + case.get('shared_form', 'dict'),
           'disable_jit_leaked_by_debug': bool(obs.get('debug', {}).get('disable_jit_leaked')),
+          'state_nest': case.get('state_nest', 'tuple'), 'batch_keys': case.get('batch_keys', 'xy'), 'x64': bool(case.get('x64')),
+          'nonfinite_real_inputs': any(isinstance(v, str) for c in case['clients'] for l in c[2] for v in l),
+          'extreme_magnitudes': any(lp.get('extreme') for lp in case['prog']['leaves']),
           'leaf_dtypes': '+'.join(sorted({lp.get('dtype', 'f32') for lp in case['prog']['leaves']})),
           'nonfinite_on_padding': any(lp['inv'] for lp in case['prog']['leaves']) or bool(case['prog']['res']['rinv'])}
 
